@@ -7,6 +7,11 @@
 #include "vh.h"
 #include <stdlib.h>
 #define ENV_IDMAP_MAX 6
+/* C20: the real table grows by allocating (id_resize); the env_idmap_fail_at-th insertion of a NEW key (0-based, counted
+ * over nni_id_set and nni_id_alloc of all maps) fails with NNG_ENOMEM and changes nothing, as a failed grow does */
+int        env_idmap_fail_at = -1;
+int        env_idmap_inserts = 0;
+extern int env_idmap_failed; /* env_alloc.c */
 struct nni_id_entry {
 	uint64_t key;
 	uint32_t skips;
@@ -76,6 +81,11 @@ nni_id_set(nni_id_map *m, uint64_t id, void *val)
 			t[i].val = val;
 			return 0;
 		}
+	if (env_idmap_fail_at >= 0 && env_idmap_inserts++ == env_idmap_fail_at) {
+		env_idmap_fail_at = -1;
+		env_idmap_failed  = 1;
+		return NNG_ENOMEM;
+	}
 	for (int i = 0; i < ENV_IDMAP_MAX; i++)
 		if (t[i].val == NULL) {
 			t[i].key = id;
